@@ -39,13 +39,17 @@ Lemma ok09_sp_action t a o :
   ok09 (sp_action t a o) = ok09 t && outcome_eqb o (exp_action t a).
 Proof. destruct a; unfold sp_action; destruct (is_ok o); reflexivity. Qed.
 
-Definition wf_action (t : spec) (a : action) : bool :=
-  match a with AStart g => negb (memz g (t_fin t)) | _ => true end.
+Definition wf_action (t : spec) (a : action) (o : outcome) : bool :=
+  match a with
+  | AStart g => negb (memz g (t_fin t)) &&
+                negb (risky_start t g o && match t_risky t with [] => false | _ => true end)
+  | _ => true
+  end.
 
-Lemma okwf_sp_action t a o : okwf (sp_action t a o) = okwf t && wf_action t a.
+Lemma okwf_sp_action t a o : okwf (sp_action t a o) = okwf t && wf_action t a o.
 Proof.
   destruct a; unfold sp_action, wf_action; destruct (is_ok o); sproj; auto;
-  now rewrite andb_true_r.
+  rewrite ?andb_true_r, ?andb_assoc; auto.
 Qed.
 
 Lemma abs_st_killq_other s k g :
@@ -67,7 +71,8 @@ Proof.
   intros HI HR Hd Hwf. rewrite okwf_sp_action in Hwf. apply andb_true_iff in Hwf.
   destruct Hwf as [_ Hwf]. destruct a as [g|g|g]; cbn [do_action] in Hd; unfold sp_action.
   - (* start *)
-    cbn [wf_action] in Hwf. rewrite (r_fin _ _ _ _ HR) in Hwf.
+    cbn [wf_action] in Hwf. apply andb_true_iff in Hwf. destruct Hwf as [Hwf _].
+    rewrite (r_fin _ _ _ _ HR) in Hwf.
     apply negb_true_iff, memz_false in Hwf.
     cbn [exp_action]. rewrite (sp_state_m _ _ _ _ g HR).
     destruct o; cbn [is_ok].
